@@ -1,2 +1,18 @@
 import InToto.Properties.C03
 #print axioms InToto.C03.interpreter_eq_spec
+#print axioms InToto.C03.rules_never_panic
+#print axioms InToto.C03.malformed_rule_is_error
+#print axioms InToto.C03.queue_exact
+#print axioms InToto.C03.run_append
+#print axioms InToto.C03.disallow_iff
+#print axioms InToto.C03.require_iff
+#print axioms InToto.C03.terminal_disallow
+#print axioms InToto.C03.goGlob_star
+#print axioms InToto.C03.verdict_perm_invariant
+#print axioms InToto.C03.match_needs_prefix
+#print axioms InToto.C03.match_needs_equal_hash
+#print axioms InToto.C03.unpack_simple
+#print axioms InToto.C03.unpack_match6
+#print axioms InToto.C03.unpack_match8_src
+#print axioms InToto.C03.unpack_match10
+#print axioms InToto.C03.unpack_ok_length
